@@ -378,6 +378,10 @@ def main(argv=None) -> int:
     sm.add_argument("ids", nargs="*")
     sm.add_argument("--tier", default="quick")
     sm.set_defaults(fn=lambda a: importlib.import_module("mdsim.selftest").seeded(a))
+    smu = sub.add_parser("selftest-mutants")
+    smu.add_argument("ids", nargs="*")
+    smu.add_argument("--tier", default=None)
+    smu.set_defaults(fn=lambda a: importlib.import_module("mdsim.selftest").mutants(a))
     args = ap.parse_args(argv)
     try:
         return int(args.fn(args) or 0)
